@@ -12,6 +12,7 @@ import (
 	"io"
 
 	digest "github.com/opencontainers/go-digest"
+	"github.com/tonistiigi/fsutil/zz_verif/v"
 	"sync"
 	"time"
 )
@@ -331,6 +332,7 @@ func PoolGet(p *sync.Pool) any {
 	if n := len(l); n > 0 {
 		x := l[n-1]
 		pools[p] = l[:n-1]
+		v.HBAcquire(p) // a Put happens before the Get that returns the same object
 		return x
 	}
 	if p.New != nil {
@@ -344,6 +346,7 @@ func PoolPut(p *sync.Pool, x any) {
 	if x == nil {
 		return
 	}
+	v.HBRelease(p)
 	pools[p] = append(pools[p], x)
 }
 
@@ -352,10 +355,12 @@ var onces = map[*sync.Once]bool{}
 //gosym:replace (*sync.Once).Do
 func OnceDo(o *sync.Once, f func()) {
 	if onces[o] {
+		v.HBAcquire(o) // the completion of f happens before the return of every Do
 		return
 	}
 	onces[o] = true
 	f()
+	v.HBRelease(o)
 }
 
 // ---------------------------------------------------------------- context
